@@ -206,7 +206,41 @@ def query3(ctx) -> List[Ob]:
     key = "positive answer exactly for the end block"
     trues = [r for r in A.walk_no_nested(m.node) if isinstance(r, ast.Return) and isinstance(r.value, ast.Constant) and r.value.value is True]
     goodt = bool(trues) and all(any(isinstance(a, ast.If) and end in A.names_in(a.test) and isinstance(a.test, ast.Compare) and isinstance(a.test.ops[0], ast.Eq) for a in A.ancestors(r)) for r in trues)
-    if goodt:
+    # every popped block is compared with the end block: only already-visited blocks may be skipped before the comparison
+    skipped_early = None
+    for r in trues:
+        arm_if = next((a for a in A.ancestors(r) if isinstance(a, ast.If) and end in A.names_in(a.test)), None)
+        if arm_if is None:
+            continue
+        chain = [arm_if]
+        cur = arm_if
+        while True:
+            par = A.parent(cur)
+            if isinstance(par, ast.If) and par.orelse == [cur]:
+                chain.append(par)
+                cur = par
+            else:
+                break
+        seq_owner = A.parent(cur)
+        earlier = list(chain[1:])
+        for fld in ("body", "orelse"):
+            seq = getattr(seq_owner, fld, None)
+            if isinstance(seq, list) and cur in seq:
+                earlier += [s for s in seq[: seq.index(cur)] if isinstance(s, ast.If)]
+        for e_if in earlier:
+            if e_if.body and isinstance(e_if.body[-1], (ast.Continue, ast.Return)) and not any(x is r for st_ in e_if.body for x in ast.walk(st_)):
+                t = e_if.test
+                disj = t.values if isinstance(t, ast.BoolOp) and isinstance(t.op, ast.Or) else [t]
+                for d in disj:
+                    dt = A.unparse(d)
+                    if isinstance(e_if.body[-1], ast.Return):
+                        continue  # the exhausted-work-list exit
+                    if not (isinstance(d, ast.Compare) and isinstance(d.ops[0], ast.In) and A.unparse(d.comparators[0]) in visited_names):
+                        skipped_early = (e_if, dt)
+    if skipped_early is not None:
+        goodt = False
+        out.append(bad("QUERY-3", m.qualname, key, ctx.where(m, skipped_early[0]), f"a popped block is skipped under '{skipped_early[1][:50]}' before it is compared with '{end}': an end block for which that holds (e.g. a target outside the sub-graph) is never reported reachable"))
+    elif goodt:
         out.append(ok("QUERY-3", m.qualname, key, where, f"return True only under '<popped> == {end}'"))
     elif trues:
         out.append(bad("QUERY-3", m.qualname, key, where, "the positive answer is not tied to having reached the end block"))
